@@ -419,6 +419,22 @@ pub fn menu(seed: &Seed, with_unsealed: bool) -> Vec<Mutation> {
                 }
             }
         }
+        // comments and short foreign elements with multi-byte characters at shifting alignments,
+        // inserted in front of the first elements and in front of the root's end tag
+        {
+            let mut at: Vec<usize> = xml.match_indices('<').map(|(i, _)| i).filter(|i| !xml[*i..].starts_with("<?") && !xml[*i..].starts_with("<![") && !xml[*i..].starts_with("</") && !xml[*i..].starts_with("<!--")).skip(1).take(12).collect();
+            if let Some(e) = xml.rfind("</") {
+                at.push(e);
+            }
+            for p in at {
+                for pad in 0..6usize {
+                    let fill = "x".repeat(pad);
+                    for (k, body) in [format!("<!--{fill}\u{e4}\u{f6}\u{20ac}\u{10000}ude -->"), format!("<q{fill}>yy\u{e4}\u{20ac}\u{10000}</q{fill}>"), format!("<?p{fill} \u{e9}\u{10348}?>")].into_iter().enumerate() {
+                        m.push(Mutation::Xml { start: p, end: p, with: body, what: format!("XML: non-ASCII {} (pad {pad}) inserted at {p}", ["comment", "short element", "processing instruction"][k]) });
+                    }
+                }
+            }
+        }
         // truncation at every tag boundary
         let mut cuts: Vec<usize> = xml.match_indices('<').map(|(i, _)| i).collect();
         cuts.extend(xml.match_indices('>').map(|(i, _)| i + 1));
@@ -437,6 +453,18 @@ pub fn menu(seed: &Seed, with_unsealed: bool) -> Vec<Mutation> {
         }
         dtd.push_str("]><e57Root type=\"Structure\" xmlns=\"http://www.astm.org/COMMIT/E57/2010-e57-v1.0\"><guid type=\"String\">&i;</guid></e57Root>");
         m.push(Mutation::XmlRaw { bytes: dtd.into_bytes(), what: "XML replaced by a DTD with nested entities".into() });
+        {
+            // one large internal entity referenced many times from element text (no nesting)
+            let mut big = String::from("<?xml version=\"1.0\"?><!DOCTYPE e57Root [<!ENTITY a \"");
+            big.push_str(&"A".repeat(256 * 1024));
+            big.push_str("\">]>");
+            let body = xml.trim_start_matches(|c| c != '<');
+            let body = body.strip_prefix("<?xml").map(|r| &r[r.find("?>").map_or(0, |p| p + 2)..]).unwrap_or(body);
+            let refs = "&a;".repeat(200);
+            let patched = body.replacen("</e57Root>", &format!("<vx:n xmlns:vx=\"u\" type=\"String\">{refs}</vx:n></e57Root>"), 1);
+            big.push_str(&patched);
+            m.push(Mutation::XmlRaw { bytes: big.into_bytes(), what: "DOCTYPE with a 256 KiB internal entity referenced 200 times".into() });
+        }
         let mut bad = xml.as_bytes().to_vec();
         let mid = bad.len() / 2;
         bad[mid] = 0xFF;
@@ -474,7 +502,7 @@ pub fn menu(seed: &Seed, with_unsealed: bool) -> Vec<Mutation> {
         pages.dedup();
         for pg in pages {
             for off in pg * 1024..((pg + 1) * 1024).min(seed.bytes.len()) {
-                for bit in [0u8, 7] {
+                for bit in [((off * 5) % 8) as u8] {
                     m.push(Mutation::Phys { off, xor: 1 << bit, what: format!("unsealed flip of bit {bit} of byte {off}") });
                 }
             }
